@@ -195,8 +195,17 @@ def e_extends_mixins(doc, rnd):
         {"name": "VerifLeafOptions", "properties": [prop("leaf", U)], "extends": [ref("VerifMidOptions")], "mixins": [ref("StaticRegistrationOptions")]},
         # a mixin that itself has a mixin (the committed model has only leaf mixins)
         {"name": "VerifViaMixin", "properties": [prop("own", S)], "mixins": [ref("VerifBaseOptions")]},
+        # the same base reached along two paths (legal, acyclic): a redundantly listed mixin, and a diamond (added after seed C06-12)
+        {"name": "VerifRedundantMixin", "properties": [prop("redundant", B, True)], "extends": [ref("VerifMidOptions")], "mixins": [ref("WorkDoneProgressOptions")]},
+        {"name": "VerifLeftOptions", "properties": [prop("left", S, True)], "extends": [ref("VerifBaseOptions")]},
+        {"name": "VerifDiamondOptions", "properties": [prop("bottom", I, True)], "extends": [ref("VerifLeftOptions")], "mixins": [ref("VerifViaMixin")]},
     ]
-    struct(doc, optional_sites(doc, rnd, 1)[0])["properties"] += [prop("verifLeaf", ref("VerifLeafOptions"), True), prop("verifViaMixin", ref("VerifViaMixin"), True)]
+    struct(doc, optional_sites(doc, rnd, 1)[0])["properties"] += [
+        prop("verifLeaf", ref("VerifLeafOptions"), True),
+        prop("verifViaMixin", ref("VerifViaMixin"), True),
+        prop("verifRedundantMixin", ref("VerifRedundantMixin"), True),
+        prop("verifDiamond", ref("VerifDiamondOptions"), True),
+    ]
 
 
 def e_redeclared_property(doc, rnd):
